@@ -264,19 +264,22 @@ def check_import(cfg, crate, rep):
         shape[a] = (lambda k: (lambda n: n >= k))(k0 + i_)
     _cnt = _re2.compile(r"(?:Iterator>::count|::len)\(.*\[\]")
     _ops = {"<": lambda x, y: x < y, "<=": lambda x, y: x <= y, ">": lambda x, y: x > y, ">=": lambda x, y: x >= y, "==": lambda x, y: x == y, "!=": lambda x, y: x != y}
+    def _used(t_):
+        # `count()` of an iterator that already yielded j items (j earlier `next()` calls on it) is n - j
+        return t_.count("call next")
     for a in all_atoms:
         if a[0] == "eq":
             l_, r_ = str(a[1]), str(a[2])
             if _cnt.search(l_) and r_.isdigit():
-                shape[a] = (lambda k: (lambda n: n == k))(int(r_))
+                shape[a] = (lambda k, j: (lambda n: max(n - j, 0) == k))(int(r_), _used(l_))
             elif _cnt.search(r_) and l_.isdigit():
-                shape[a] = (lambda k: (lambda n: n == k))(int(l_))
+                shape[a] = (lambda k, j: (lambda n: max(n - j, 0) == k))(int(l_), _used(r_))
         elif a[0] == "cmp" and a[1] in _ops:
             l_, r_ = str(a[2]), str(a[3])
             if _cnt.search(l_) and r_.isdigit():
-                shape[a] = (lambda op, k: (lambda n: _ops[op](n, k)))(a[1], int(r_))
+                shape[a] = (lambda op, k, j: (lambda n: _ops[op](max(n - j, 0), k)))(a[1], int(r_), _used(l_))
             elif _cnt.search(r_) and l_.isdigit():
-                shape[a] = (lambda op, k: (lambda n: _ops[op](k, n)))(a[1], int(l_))
+                shape[a] = (lambda op, k, j: (lambda n: _ops[op](k, max(n - j, 0))))(a[1], int(l_), _used(r_))
 
     def residual(n):
         """the disjunction of all refusal conditions for an RDN with n attributes, as a formula over the other tests"""
